@@ -393,6 +393,7 @@ func isEffectFree(name string) bool {
 	for _, p := range []string{
 		"(*google.golang.org/grpc/internal/grpclog.PrefixLogger).", "(*google.golang.org/grpc/grpclog.", "google.golang.org/grpc/grpclog.", "(google.golang.org/grpc/grpclog.",
 		"fmt.Sprintf", "fmt.Sprint", "google.golang.org/grpc/internal/channelz.", "(*google.golang.org/grpc/internal/grpclog.",
+		"strconv.ParseInt", "strconv.Atoi", "strconv.ParseBool", "strconv.ParseFloat", "(*regexp.Regexp).MatchString", "(*regexp.Regexp).String",
 		"strings.Join", "strings.Split", "strings.TrimSpace", "strings.EqualFold", "strings.Contains", "github.com/cespare/xxhash/v2.Sum64String", "github.com/cespare/xxhash/v2.Sum64",
 		"google.golang.org/grpc/balancer/base.NewErrPicker",
 		"math.", // package math: pure functions (result unconstrained unless modelled elsewhere)
